@@ -140,7 +140,7 @@ class ExternalAddress:
         if self.external_address is None:
             return Builder().store_bits('00').end_cell()
         builder = Builder().store_bits('01').store_uint(self.len, 9)
-        if self.len:  # a zero-length external address has no address bits
+        if self.len or self.external_address:  # a zero-length external address has no address bits (and only holds 0)
             builder.store_uint(self.external_address, self.len)
         return builder.end_cell()
 
